@@ -19,11 +19,12 @@ def run(ctx):
     dist = {'histories': 0, 'steps': 0, 'ops': {}, 'bits': {}, 'kinds_of_live_dbs': {}, 'results': {'ok': 0, 'err': 0},
             'columns': {}, 'max_live': 0, 'unsorted_or_explicit_zero_rows_seen': 0, 'none_names_seen': 0, 'duplicate_names_seen': 0,
             'aliased_handles_seen': 0}
-    nh = ctx.n(200, 3000)
+    # thorough: 1500 histories, 15% of them long (measured: 3000 with 30% long ones needs > 40 min on a loaded 16-core machine)
+    nh = ctx.n(200, 1500)
     for i in range(nh):
         h = dbgen.History(rng)
         h.warmup()
-        nsteps = rng.randint(6, 15) if ctx.quick or rng.random() < 0.7 else rng.randint(16, 60)
+        nsteps = rng.randint(6, 15) if ctx.quick or rng.random() < 0.85 else rng.randint(16, 60)
         for _ in range(nsteps):
             before = {lo['h']: (dbgen.db_lit(lo['db']), str(lo['items'])) for lo in h.steps[-1]['live']} if h.steps else {}
             eq_before = {lo['h']: dict(zip([x['h'] for x in h.steps[-1]['live']], lo['eq'])) for lo in h.steps[-1]['live']} if h.steps else {}
